@@ -129,7 +129,22 @@ func lifeFamily(id, tier string, p map[string]bool, tweak func(kind string, o *L
 	if tweak != nil {
 		tweak("debt", &dd)
 	}
-	return []*engine.Scenario{LifeScenario(a), LifeScenario(b), LifeScenario(c), LifeScenario(dd)}
+	// e: two data models sharing the providers (capacity, worker accumulators, schedule entries with two ids)
+	e := r1Life(id, tier, p)
+	e.ID = id + "-life-2models"
+	e.DataIds = []string{world.Data1, world.Data2}
+	e.Durations = []uint64{3600}
+	e.RenewDur = []uint64{3600}
+	e.Drain, e.Migrate = false, false
+	e.Depth = 5
+	if tier == "thorough" {
+		e.Depth = 7
+		e.Migrate = true
+	}
+	if tweak != nil {
+		tweak("2models", &e)
+	}
+	return []*engine.Scenario{LifeScenario(a), LifeScenario(b), LifeScenario(c), LifeScenario(dd), LifeScenario(e)}
 }
 
 func init() {
@@ -229,6 +244,9 @@ func init() {
 			return []*engine.Scenario{
 				RewardScenario(RewardOpts{ID: "C08-above-baseline", Cfg: world.Config{BlockReward: 1_000_000, Baseline: 1, HalvingPeriod: 2000, AdjustmentPeriod: 11}, Depth: d, Store: true}),
 				RewardScenario(RewardOpts{ID: "C08-below-baseline", Cfg: world.Config{BlockReward: 1_000_000, Baseline: 1_000_000_000_000_000, HalvingPeriod: 11, AdjustmentPeriod: 11}, Depth: d}),
+				// starts four coins short of the first halving, below the baseline, with the pledge-based reward (2-6 coins)
+				// between the halved and the full block reward: the schedule bound changes inside the explored depth
+				RewardScenario(RewardOpts{ID: "C08-across-halving", Cfg: world.Config{BlockReward: 3, Baseline: 1_000_000_000_000_000, APY: "1", HalvingPeriod: 11, AdjustmentPeriod: 11, GenesisReward: 200_000_000_000_000 - 4}, Depth: d}),
 			}
 		}})
 	authAssume := []string{"principals: owner, read-write grantee, read-only grantee, stranger (did:key) and a sid owner/attacker pair; relayers: the named gateway and the adversary's own registered node", "signature scheme and DID resolution of the sao-did library are trusted", "SDK modules are trusted"}
